@@ -1153,6 +1153,24 @@ def replay(ctx, path):
             print("   expected:", exp.hex()[:200] if exp is not None else "(an error: not representable in %s)" % t[2])
             print("   verdict :", "as the property demands" if okc else "FAILS the property", "(class K-C08-2)" if straddle else "")
             bad += 0 if okc else 1
+        elif t[0] == "Z" and (cid.startswith("zt") or cid.startswith("zh")):
+            evs, outs = evs_from_sheet(bytes.fromhex(t[2]))
+            if cid.startswith("zt"):
+                enc = t[5] if t[5] != "-" else (outs[-1].get("encoding", "UTF-8") if outs else "UTF-8")
+                exp, straddle = text_expected(enc, evs)
+                okc = r_ is not None and r_.startswith("ok:") and exp is not None and bytes.fromhex(r_[3:]) == exp
+                print("   expected:", exp.hex()[:200] if exp is not None else "(an error: not representable in %s)" % enc)
+                print("   verdict :", "as the property demands" if okc else "FAILS the property")
+                bad += 0 if okc else 1
+            else:
+                txt = bytes.fromhex(r_[3:]).decode("utf-8", "replace") if r_ and r_.startswith("ok:") else None
+                print("   output  :", repr(txt)[:400])
+                explicit = bool(outs)
+                rel = "transformation failed" if txt is None else h_verdict(evs, txt, 0, 0 if (explicit and t[7] == "0") else 1, 1 if (explicit and t[6] == "1") else 0)
+                if rel is None and txt.startswith("<?xml"):
+                    rel = "html output method but an XML declaration was written"
+                print("   verdict :", "as HTML 4.01 demands" if rel is None else "FAILS the property: " + rel)
+                bad += 0 if rel is None else 1
         elif t[0] == "Z":
             if r_ and r_.startswith("ok:"):
                 rc2, rp, _ = core.run_lines(impl, "R %s %s\n" % (cid, r_[3:]))
@@ -1169,6 +1187,56 @@ def replay(ctx, path):
                 print("   verdict : FAILS (no output)")
                 bad += 1
         elif t[0] == "H":
-            if r_ and r_.startswith("ok:"):
-                print("   bytes   :", bytes.fromhex(r_[3:])[:400])
+            txt = bytes.fromhex(r_[3:]).decode(PY_CODEC.get(t[2], "utf-8"), "replace") if r_ and r_.startswith("ok:") else None
+            print("   output  :", repr(txt)[:400])
+            evs = S4.parse_script(t[8:])
+            rel = "serialization failed" if txt is None else h_verdict(evs, txt, int(t[3]), int(t[4]), int(t[5]), cid)
+            print("   verdict :", "as HTML 4.01 demands" if rel is None else "FAILS the property: " + rel)
+            bad += 0 if rel is None else 1
     return 1 if bad else 0
+
+
+def h_verdict(evs, txt, ind, esc, ometa, cid=""):
+    p = HCollect()
+    p.feed(txt)
+    p.close()
+    what = html_compare(html_expected(evs), p.out, ind >= 0)
+    has_head = any(e[0] == "S" and s_of(e[1]).lower() == "head" for e in evs)
+    meta_there = re.search(r"<META http-equiv=\"Content-Type\"", txt) is not None
+    if what is None and has_head and ometa == 1 and meta_there:
+        what = "META tag written although omitting it was requested"
+    if what is None and has_head and ometa == 0 and not meta_there:
+        what = "no META tag in HEAD although it was not omitted"
+    if what is None and esc == 0 and re.search(r"%[0-9A-F]{2}", txt):
+        what = "URI attribute escaped although escaping was switched off"
+    return what
+
+
+def evs_from_sheet(sheet):
+    """the result tree a generated stylesheet (sheet_of/body_of) denotes, read back with Python's XML parser"""
+    import xml.dom.minidom
+    doc = xml.dom.minidom.parseString(sheet)
+    tmpl = [n for n in doc.documentElement.childNodes if n.nodeType == 1 and n.localName == "template"][-1]
+    evs = []
+
+    def walk(n):
+        for c in n.childNodes:
+            if c.nodeType != 1:
+                continue
+            if c.namespaceURI == XSL:
+                txt = "".join(x.data for x in c.childNodes if x.nodeType in (3, 4))
+                if c.localName == "text":
+                    evs.append(("T", u16(txt)))
+                elif c.localName == "comment":
+                    evs.append(("M", u16(txt)))
+                elif c.localName == "processing-instruction":
+                    evs.append(("P", u16(c.getAttribute("name")), u16(txt)))
+            else:
+                attrs = [(u16(a.name), u16(a.value.replace("{{", "{").replace("}}", "}"))) for a in (c.attributes.item(i) for i in range(c.attributes.length))]
+                evs.append(("S", u16(c.tagName), attrs))
+                walk(c)
+                evs.append(("E", u16(c.tagName)))
+    walk(tmpl)
+    outs = [dict((a.name, a.value) for a in (o.attributes.item(i) for i in range(o.attributes.length)))
+            for o in doc.documentElement.childNodes if o.nodeType == 1 and o.localName == "output"]
+    return evs, outs
